@@ -378,6 +378,17 @@ def bool_constraints(L, e, val):
     e = L.pv.inline(e)
     if e[0] == 'un' and e[1] == 'Not':
         return bool_constraints(L, e[2], 1 - val)
+    # `cond.then(|| ..)` / `cond.then_some(..)` is Some exactly when cond holds
+    x_, v_ = None, val
+    if e[0] == 'discr':
+        x_ = e[1]
+    elif e[0] == 'call' and isinstance(e[1], str) and e[1].endswith(('Option::<T>::is_some', 'Option::<T>::is_none')) and e[2]:
+        x_, v_ = e[2][0], (val if e[1].endswith('is_some') else 1 - val)
+    if x_ is not None and v_ in (0, 1):
+        while x_[0] == 'call' and isinstance(x_[1], str) and x_[1].endswith(('Option::<T>::as_ref', 'Option::<T>::as_mut', 'Option::<T>::as_deref')) and x_[2]:
+            x_ = x_[2][0]
+        if x_[0] == 'call' and isinstance(x_[1], str) and x_[1].rsplit('::', 1)[-1] in ('then', 'then_some') and 'bool' in x_[1] and len(x_[2]) == 2:
+            return bool_constraints(L, x_[2][0], v_)
     if val == 1 and e[0] == 'call' and isinstance(e[1], str) and e[1].endswith('::contains') and 'ops::Range' in e[1] and len(e[2]) == 2:
         r, x = L.range_of(L.pv.inline(e[2][0])), L.lin(e[2][1])
         if r is not None and x is not None:
@@ -661,7 +672,15 @@ def call_obligations(pv, L, fn, t, callee, cargs, cs, fs, at, chain, depth, root
     for a in cargs:
         for x in walk(a):
             if x[0] == 'closure' and x[1] in pv.crate.fns:
-                out.extend(analyse(pv, pv.crate.fns[x[1]], None, cs, fs, depth + 1, chain, root, L))
+                # the closure sees its captures as fields of its first parameter: hand them over, so that facts the caller has established
+                # about the captured values carry into the body; `cond.then(|| ..)` runs the body only when cond holds
+                env = ('agg', 'closure-env', tuple((str(i), c_) for i, c_ in enumerate(x[2])))
+                cs2 = cs
+                if callee.rsplit('::', 1)[-1] == 'then' and 'bool' in callee and len(cargs) == 2:
+                    bc = bool_constraints(L, cargs[0], 1)
+                    if bc is not None:
+                        cs2 = list(cs) + bc
+                out.extend(analyse(pv, pv.crate.fns[x[1]], {1: env}, cs2, fs, depth + 1, chain, root, L))
     c = t.get('callee') or {}
     if c.get('is_trait_method') and not c.get('resolved') and not callee.startswith(('std::', 'core::', 'alloc::')):
         pv.opaque_user.add(callee)
